@@ -31,6 +31,10 @@ MergeRefinesConcat ==
             /\ DocSeq(St) = DocSeq(S1) \o DocSeq(S2)
             /\ SeekCorrect(St)
             /\ DocSeq(St) = DocSeq(Recompress(<<S1, S2>>, <<AllAlive(S1), AllAlive(S2)>>, sizeOf, BlockSize))
+       \* a filtered merge: own deletes A and a caller's filter F - the merged store holds the documents alive under both
+       /\ \A A \in SUBSET AllAlive(S1) : \A F \in {AllAlive(S1), AllAlive(S1) \ {0}, {0}, {}} :
+            LET M == Merge(<<S1, S2>>, <<EffectiveAlive(A, F), AllAlive(S2)>>, sizeOf, BlockSize)
+            IN DocSeq(M) = Live(S1, A \cap F) \o DocSeq(S2) /\ SeekCorrect(M)
        \* the merger itself (per source: stack or copy document by document), both orders
        /\ \A A \in SUBSET AllAlive(S1) :
             LET M1 == Merge(<<S1, S2>>, <<A, AllAlive(S2)>>, sizeOf, BlockSize)
